@@ -137,9 +137,9 @@ func (p *Parser) parseNode(node, parent *yaml.Node, group *Group, offsetLine, of
 		}
 		return groups
 	case yaml.ScalarNode:
-		// Only block scalars keep one line of the file per line of the value, quoted strings with escaped newlines don't,
-		// so positions inside them cannot be mapped back to the file.
-		if node.Style&(yaml.LiteralStyle|yaml.FoldedStyle) != 0 &&
+		// Only literal block scalars keep one line of the file per line of the value. Quoted strings with escaped
+		// newlines and folded blocks don't, so positions inside them cannot be mapped back to the file.
+		if node.Style&yaml.LiteralStyle != 0 &&
 			strings.Count(node.Value, "\n") > 1 && node.Value != strings.Join(contentLines, "\n") && node.Line < len(contentLines) {
 			var n yaml.Node
 			// FIXME there must be a better way.
